@@ -1,6 +1,7 @@
 package main
 
 import (
+	"fmt"
 	"go/constant"
 	"go/token"
 	"go/types"
@@ -35,6 +36,14 @@ func r18_1(c *RC) {
 		return
 	}
 	// make([]byte, 4+len(p)); copy(data[3:], p); data[3+len(p)] = 0xff
+	if parts, ok := appendFrameLayout(p, wr); ok {
+		if strings.Join(parts, " ") == "byte:0 BE16:len payload byte:255" {
+			c.OKH("frame-offsets@Write", wr.Pos(), "appended in wire order: marker, 2-byte length, data, trailer (offsets 0, 1, 3, 3+len)")
+		} else {
+			c.Bad("frame-offsets@Write", wr.Pos(), "frame writer appends [%s], not marker 0x00, big-endian uint16 length, data, trailer 0xff", strings.Join(parts, " "))
+		}
+		return
+	}
 	size4, copy3, trailer := false, false, false
 	instrs(frameBuilder(p, wr), func(_ *ssa.BasicBlock, _ int, in ssa.Instruction) {
 		switch x := in.(type) {
@@ -581,4 +590,140 @@ func guardFailIdx(iff *ssa.If) int {
 		return 0
 	}
 	return 1
+}
+
+// appendFrameLayout: when the frame handed to the stream is built as a chain
+// of appends (append(b, k), AppendUint16(b, uint16(len(p))), append(b, p...)),
+// the parts in wire order: "byte:K", "BE16:len" / "LE16:len" / "..16:?",
+// "payload". ok is false when the buffer is not built that way.
+func appendFrameLayout(p *Prog, wr *ssa.Function) ([]string, bool) {
+	var arg ssa.Value
+	instrs(wr, func(_ *ssa.BasicBlock, _ int, in ssa.Instruction) {
+		cl, ok := in.(*ssa.Call)
+		if ok && cl.Common().IsInvoke() && cl.Common().Method.Name() == "Write" && arg == nil {
+			arg = cl.Common().Args[0]
+		}
+	})
+	if arg == nil {
+		return nil, false
+	}
+	// a helper returning the frame
+	for _, l := range Leaves(arg, nil) {
+		if cl, ok := l.(*ssa.Call); ok {
+			if sc := cl.Common().StaticCallee(); sc != nil && sc.Blocks != nil && pkgOfFn(sc) == pkgOfFn(wr) {
+				for _, b := range sc.Blocks {
+					if r, ok := b.Instrs[len(b.Instrs)-1].(*ssa.Return); ok && len(r.Results) == 1 {
+						arg = r.Results[0]
+					}
+				}
+			}
+		}
+	}
+	var parts []string
+	v := arg
+	for i := 0; i < 12; i++ {
+		cl, ok := v.(*ssa.Call)
+		if !ok {
+			break
+		}
+		if b, isB := cl.Common().Value.(*ssa.Builtin); isB && b.Name() == "append" {
+			el := cl.Common().Args[1]
+			switch {
+			case isParamSlice(el):
+				parts = append(parts, "payload")
+			default:
+				// variadic literal: slice of a fresh array with constant stores
+				ks, ok := varargConsts(el)
+				if !ok {
+					return nil, false
+				}
+				for j := len(ks) - 1; j >= 0; j-- {
+					parts = append(parts, fmt.Sprintf("byte:%d", ks[j]))
+				}
+			}
+			v = cl.Common().Args[0]
+			continue
+		}
+		id := calleeID(cl)
+		if strings.HasSuffix(id, "ndian).AppendUint16") {
+			ord := "BE"
+			if strings.Contains(id, "littleEndian") {
+				ord = "LE"
+			}
+			what := "?"
+			if cv, ok := cl.Common().Args[2].(*ssa.Convert); ok {
+				if lc, ok := cv.X.(*ssa.Call); ok && calleeNameAny(lc) == "len" && isParamSlice(lc.Common().Args[0]) {
+					what = "len"
+				}
+			}
+			parts = append(parts, ord+"16:"+what)
+			v = cl.Common().Args[1]
+			continue
+		}
+		return nil, false
+	}
+	if len(parts) == 0 {
+		return nil, false
+	}
+	// the chain must start from an empty buffer
+	switch x := v.(type) {
+	case *ssa.MakeSlice:
+		if k, ok := constInt(x.Len); !ok || k != 0 {
+			return nil, false
+		}
+	case *ssa.Const:
+		if !x.IsNil() {
+			return nil, false
+		}
+	default:
+		return nil, false
+	}
+	for i, j := 0, len(parts)-1; i < j; i, j = i+1, j-1 {
+		parts[i], parts[j] = parts[j], parts[i]
+	}
+	return parts, true
+}
+
+func isParamSlice(v ssa.Value) bool {
+	_, ok := v.(*ssa.Parameter)
+	return ok
+}
+
+// varargConsts: the constants of `append(b, k1, k2)`'s variadic argument.
+func varargConsts(v ssa.Value) ([]int64, bool) {
+	sl, ok := v.(*ssa.Slice)
+	if !ok {
+		return nil, false
+	}
+	al, ok := sl.X.(*ssa.Alloc)
+	if !ok {
+		return nil, false
+	}
+	arr, ok := al.Type().(*types.Pointer).Elem().Underlying().(*types.Array)
+	if !ok {
+		return nil, false
+	}
+	out := make([]int64, arr.Len())
+	set := 0
+	for _, r := range *al.Referrers() {
+		ia, ok := r.(*ssa.IndexAddr)
+		if !ok {
+			continue
+		}
+		idx, ok := constInt(ia.Index)
+		if !ok {
+			return nil, false
+		}
+		for _, u := range *ia.Referrers() {
+			if st, ok := u.(*ssa.Store); ok {
+				k, ok := constInt(st.Val)
+				if !ok {
+					return nil, false
+				}
+				out[idx] = k
+				set++
+			}
+		}
+	}
+	return out, set == int(arr.Len())
 }
